@@ -24,6 +24,7 @@ from __future__ import annotations
 import ast
 
 from ..astutil import first_stmt, last_stmt  # noqa: F401
+from ..astutil import stores_to  # noqa: F401
 from ..astutil import (MUTATING_METHODS, ancestors, call_name, calls_in, guards_of,
                        names_in, norm, single_def_value, stmt_of, walk_no_nested)
 from ..cfg import CFG
@@ -413,7 +414,55 @@ def rule_merge(ctx):
     ctx.stats['merge_fs_sites'] = {g.nodes[k].line: v for k, v in fs_nodes.items()}
 
 
+def rule_caches(ctx):
+    """R5: `add` recognises a foreign schema by comparing hash(trajectory) with
+    the store's prototype.  Any attribute of the container that lazily caches a
+    value derived from the data dictionary (`if self.X is None: self.X = f(self.F…)`)
+    must be reset wherever that source attribute is rebound, otherwise the schema
+    check compares stale values and a trajectory with different field sets is
+    accepted."""
+    prog = ctx.prog
+    n = 0
+    for cls in prog.subclasses_of('Container'):
+        for meth in cls.methods.values():
+            for x in walk_no_nested(meth.node):
+                if isinstance(x, ast.If) and isinstance(x.test, ast.Compare) and isinstance(x.test.ops[0], ast.Is) \
+                        and norm(x.test.comparators[0]) == 'None' and isinstance(x.test.left, ast.Attribute) \
+                        and norm(x.test.left.value) == 'self':
+                    cache = x.test.left.attr
+                    fills = [s_ for s_ in x.body if isinstance(s_, ast.Assign) and norm(s_.targets[0]) == f'self.{cache}']
+                    if not fills:
+                        continue
+                    sources = {a.attr for a in ast.walk(fills[0].value) if isinstance(a, ast.Attribute) and norm(a.value) == 'self'} - {cache}
+                    for src in sorted(sources):
+                        for c2 in prog.subclasses_of('Container'):
+                            for w in c2.methods.values():
+                                if w.name == '__init__':
+                                    continue
+                                writes = [st for t, st, how in stores_to(w.node) if norm(t) == f'self.{src}']
+                                if not writes:
+                                    continue
+                                n += 1
+                                resets = [st for t, st, how in stores_to(w.node) if norm(t) == f'self.{cache}'
+                                          and isinstance(getattr(st, 'value', None), ast.Constant) and st.value.value is None]
+                                ok = bool(resets)
+                                ctx.ob('C10-R5', w, f'self.{src} rebound → cached self.{cache} invalidated', ok,
+                                       f'`self.{cache} = None` in the same method' if ok else
+                                       (f'{meth.qualname} caches a value derived from self.{src} in self.{cache}, but {w.qualname} '
+                                        f'rebinds self.{src} without resetting the cache: the schema comparison in '
+                                        'TrajectoryStore.add sees the stale value and accepts a trajectory whose field sets differ'),
+                                       line=writes[0].lineno)
+    ctx.floor('C10-R5', n, 1, 'cache/source writer pairs in Container')
+    hs = prog.cls('storage/container.py', 'Container').methods.get('__hash__')
+    if hs is not None:
+        r = [x for x in walk_no_nested(hs.node) if isinstance(x, ast.Return)]
+        ok = all('_data_dictionary' in norm(x.value) or norm(x.value).startswith('self._') for x in r) and bool(r)
+        ctx.ob('C10-R5', hs, 'container hash is a function of its data dictionary', ok,
+               ', '.join(norm(x.value) for x in r) if ok else 'hash no longer reflects the field definitions', nontrivial=False)
+
+
 def run(ctx):
+    rule_caches(ctx)
     rule_add(ctx)
     rule_merge(ctx)
     ctx.assumptions += [
